@@ -1,4 +1,5 @@
 import TeleportModel.Model.EvmProof
+import TeleportModel.Model.EvmProofLife
 import TeleportModel.Model.EvmProofKeccak
 import TeleportModel.Driver.Loop
 /-
@@ -123,9 +124,80 @@ def runP (p : P String) (toks : List String) : String :=
   | some (s, []) => s
   | _ => "bad-op"
 
-def step (st : Unit) (line : String) : Unit × String :=
+/-! life-cycle ops (stateful): the model keeps the whole stored client state and its consensus states
+
+  lc create|toggle|upgrade <timeDelay> <blockDelay> <chainId> <trusting> <contract> <rn> <rh> <headerHash> <root> <time> <innerRn> <innerRh>
+  lc update <good|bad> <rn> <rh> <headerHash> <root> <time>          (good/bad: told by the harness, which built the header)
+      -> ok|rej <dump>       dump = every field of the stored client state + all stored consensus states
+  lc verify <c|a> <hRn> <hRh> <src> <dst> <seq> <value> <raw> | <decoded proof> M <mpt table>   -> ok | rej
+-/
+open TM.EvmProof.Life in
+def insCons (e : Height × ConsEntry) : ConsStore → ConsStore
+  | [] => [e]
+  | x :: rest =>
+    if e.1.rn < x.1.rn ∨ (e.1.rn = x.1.rn ∧ e.1.rh < x.1.rh) then e :: x :: rest else x :: insCons e rest
+
+def sortCons (s : ConsStore) : ConsStore := s.foldr insCons []
+
+def hstr (h : Height) : String := toString h.rn.toNat ++ "-" ++ toString h.rh.toNat
+
+def dumpLife (l : Life.Life) : String :=
+  let cons := (sortCons l.store).map (fun (k, e) =>
+    match e with
+    | .corrupt => hstr k ++ ":X"
+    | .state c => hstr k ++ ":" ++ hex c.root ++ ":" ++ hstr c.height ++ ":" ++ toString c.timestamp.toNat)
+  joinWith " " (["eth", toString l.chainId.toNat, toString l.timeDelay.toNat, toString l.cs.blockDelay.toNat,
+    toString l.trusting.toNat, hex l.cs.contract, hstr l.cs.head, hex l.headHash, "C", toString cons.length] ++ cons)
+
+def pConfig : P Life.Config := do
+  let td ← pU64; let bd ← pU64; let chainId ← pU64; let trusting ← pU64; let contract ← pHex
+  let rn ← pU64; let rh ← pU64; let hash ← pHex; let root ← pHex; let time ← pU64; let irn ← pU64; let irh ← pU64
+  pure { contract, chainId, trusting, timeDelay := td, blockDelay := bd, head := ⟨rn, rh⟩, headHash := hash,
+         cons := ⟨time, ⟨irn, irh⟩, root⟩ }
+
+def pLifeVerify (l : Life.Life) : P String := do
+  let k ← pKind
+  let hRn ← pU64; let hRh ← pU64
+  let src ← pHex; let dst ← pHex; let seq ← pU64; let value ← pHex
+  let _raw ← tok
+  expect "|"
+  let pa ← pProofArg
+  expect "M"
+  let nm ← pNat; let tbl ← rep pMptEntry nm
+  let env : Env := { keccak := Keccak.keccak256, mpt := fun r k _ => lookupMpt tbl r k }
+  match Life.verifyStored env l ⟨hRn, hRh⟩ pa k src dst seq value with
+  | .ok _ => pure "ok"
+  | _ => pure "rej"
+
+abbrev St := Option Life.Life
+
+def stepLife (st : St) (toks : List String) : St × String :=
+  match toks with
+  | "create" :: rest | "toggle" :: rest =>
+    match pConfig rest with
+    | some (c, []) => let l := Life.create c; (some l, "ok " ++ dumpLife l)
+    | _ => (st, "bad-op")
+  | "upgrade" :: rest =>
+    match st, pConfig rest with
+    | some l, some (c, []) => let l' := Life.upgrade l c; (some l', "ok " ++ dumpLife l')
+    | _, _ => (st, "bad-op")
+  | "update" :: good :: rest =>
+    match st, (do let rn ← pU64; let rh ← pU64; let hash ← pHex; let root ← pHex; let time ← pU64
+                  pure (rn, rh, hash, root, time) : P _) rest with
+    | some l, some ((rn, rh, hash, root, time), []) =>
+      let l' := Life.applyUpd l ⟨good == "good", ⟨rn, rh⟩, hash, root, time⟩
+      (some l', (if good == "good" then "ok " else "rej ") ++ dumpLife l')
+    | _, _ => (st, "bad-op")
+  | "verify" :: rest =>
+    match st with
+    | some l => (st, runP (pLifeVerify l) rest)
+    | none => (st, "bad-op")
+  | _ => (st, "bad-op")
+
+def step (st : St) (line : String) : St × String :=
   match fields line with
-  | ["reset"] => (st, "ok")
+  | ["reset"] => (none, "ok")
+  | "lc" :: rest => stepLife st rest
   | "v" :: rest => (st, runP pVerify rest)
   | ["fh", s] => (st, match unhex s with | some b => hex (fromHex b) | none => "bad-op")
   | ["hh", s] => (st, match unhex s with | some b => hex (hexToHash b) | none => "bad-op")
@@ -144,7 +216,7 @@ def step (st : Unit) (line : String) : Unit × String :=
       pure (hex (slotOf env k src dst seq))) rest)
   | _ => (st, "bad-op")
 
-def fresh : Unit := ()
+def fresh : St := none
 
 def main : IO Unit := TM.Driver.runStdin step fresh
 
